@@ -126,10 +126,10 @@ InErr(cls) == [c |-> cls, h |-> <<>>]
 InFieldFailure(h, i, kind, validate, decode) ==
   LET t == h[i] IN
   IF validate /\ t.nu THEN "ProtocolError"
-  ELSE IF validate /\ t.ne THEN "foreign:IndexError"                \* header[0][0] on an empty name
+  ELSE IF validate /\ t.ne THEN "ProtocolError"                     \* an empty name is refused (repo fix, see known_findings.json)
   ELSE IF validate /\ (t.nw \/ t.vlead \/ t.vtrail) THEN "ProtocolError"
   ELSE IF validate /\ FieldBad(h, i, kind) THEN "ProtocolError"
-  ELSE IF decode /\ ~t.u8 THEN "foreign:UnicodeDecodeError"
+  ELSE IF decode /\ ~t.u8 THEN "ProtocolError"                      \* undecodable text is refused (repo fix, see known_findings.json)
   ELSE "none"
 
 \* result: c = "ok" and h = delivered wire fields, or c = the exception class
